@@ -69,7 +69,9 @@ func (m *Mixin) renderCall(p *renderState, wr *bytes.Buffer) error {
 %s
 {{- end -}}`, blockname, subblock.String())
 		p.mixinblocks = append(p.mixinblocks, mixinblock)
-		fmt.Fprintf(wr, `{{ __freeze "%s" }}{{ template "mixin_%s" (__op__array (%s) (%s) ("%s") ) }}`, blockname, m.Name, p.JsExpr(m.Args, false, false), attributes, blockname)
+		// the block travels with the call as a value that knows its scope, so that every placement of `block` in the
+		// mixin body (twice, forwarded, in a recursive call) renders this call's block with this caller's variables
+		fmt.Fprintf(wr, `{{ template "mixin_%s" (__op__array (%s) (%s) (__freeze "%s") ) }}`, m.Name, p.JsExpr(m.Args, false, false), attributes, blockname)
 	} else {
 		fmt.Fprintf(wr, `{{ template "mixin_%s" (__op__array (%s) (%s) (null) ) }}`, m.Name, p.JsExpr(m.Args, false, false), attributes)
 	}
